@@ -11,6 +11,7 @@ The price of the call (contract call overhead + the method's fixed price) is obs
 model; the Boolean the method returns is modelled. Core Lean only.
 -/
 import NeoModel.Model.Fees.Block
+import NeoModel.Generated.NativeMethods
 namespace NeoModel.Native
 open NeoModel NeoModel.Fees NeoModel.Admission NeoModel.Pack
 
@@ -43,5 +44,19 @@ def oracleVerify (t : Tx) : Bool := t.attrs.any isOracleResponse
 (`verifyHashAgainstScript`: a `false` result is ErrInvalidSignature with the gas consumed). -/
 def nativeWit (cost : Nat) (res : Bool) : Wit :=
   .contract fun lim => if cost ≤ lim then (if res then .ok cost else .invalidSig cost) else .fail
+
+
+/-- the fixed price (`CPUFee`) of a native contract's `verify` method in the regenerated native method table. -/
+def verifyCpuFee (contract : String) : Nat :=
+  ((NeoModel.Generated.NativeMethods.table.find? fun e => e.contract == contract && e.name == "verify").map (·.cpuFee)).getD 0
+
+/-- what a witness with an empty verification script costs when the signer is a native contract: the contract's
+script for the method is `PUSH0 (version); SYSCALL System.Contract.CallNative; RET` (interop/context.go:357-365), the
+method's `CPUFee · BaseExecFee` is charged by the call (native/interop.go), and Notary's invocation script pushes the
+signature with one PUSHDATA1. In datoshi, rounded up like every `GasConsumed`. -/
+def nativeVerifyPrice (base : Nat) (contract : String) (pushesSig : Bool) : Nat :=
+  picoToDatoshi (base * (NeoModel.Fees.coeff NeoModel.Generated.FeeConsts.opPUSH0 + NeoModel.Fees.coeff NeoModel.Generated.FeeConsts.opSYSCALL
+    + NeoModel.Fees.coeff NeoModel.Generated.FeeConsts.opRET + verifyCpuFee contract
+    + (if pushesSig then NeoModel.Fees.coeff NeoModel.Generated.FeeConsts.opPUSHDATA1 else 0)))
 
 end NeoModel.Native
